@@ -464,11 +464,9 @@ def run(ctx):
     gens = []
     FMTS = ("alone", "lzip", "xz")
     if quick:
-        for fmt in FMTS:
-            mc = write_cfg(ctx, "mc_" + fmt, "MCFormats.cfg", Sweep='"core"', Profile='"quick"', ChunkSizes="{0, 1}",
-                           Formats='{"%s"}' % fmt)
-            cfgs.append(mc)
-            jobs.append(("MCFormats(%s, core, pieces {1,rest})" % fmt, "MCFormats", mc, 2, 600))
+        mc = write_cfg(ctx, "mc", "MCFormats.cfg", Sweep='"core"', Profile='"quick"', ChunkSizes="{0, 1}")
+        cfgs.append(mc)
+        jobs.append(("MCFormats(core, pieces {1,rest})", "MCFormats", mc, 3, 600))
     else:
         for fmt in FMTS:
             mc = write_cfg(ctx, "mc_" + fmt, "MCFormats.cfg", Sweep='"all"', Profile='"quick"', ChunkSizes="{0, 1, 2, 3, 7}",
@@ -479,12 +477,12 @@ def run(ctx):
                        ChunkSizes="{0, 1, 2, 3, 4, 5, 6, 7, 8, 9, 10, 11, 12, 13, 14, 15, 16, 17, 18, 19, 20, 21, 22, 23, 24}")
         cfgs.append(mc)
         jobs.append(("MCFormats(core, every slicing)", "MCFormats", mc, 3, 1500))
-    for fmt in FMTS:
-        gen = write_cfg(ctx, "gen_" + fmt, "GenFormats.cfg", Sweep='"all"', Profile='"quick"' if quick else '"full"',
-                        Formats='{"%s"}' % fmt)
+    for fmts in ((FMTS,) if quick else tuple((f,) for f in FMTS)):
+        gen = write_cfg(ctx, "gen_" + fmts[0], "GenFormats.cfg", Sweep='"all"', Profile='"quick"' if quick else '"full"',
+                        Formats="{%s}" % ", ".join('"%s"' % f for f in fmts))
         cfgs.append(gen)
-        gens.append("GenFormats(%s)" % fmt)
-        jobs.append((gens[-1], "GenFormats", gen, 1, 1500))
+        gens.append("GenFormats(%s)" % ",".join(fmts))
+        jobs.append((gens[-1], "GenFormats", gen, 3, 1500))
     for v in VARIANTS:
         vc = write_cfg(ctx, "var_" + v, "MCFormatsVar_%s.cfg" % v, Sweep='"core"')
         cfgs.append(vc)
@@ -531,6 +529,7 @@ def run(ctx):
     plans = []
     for gname in gens:
         plans += plans_from_tlc(res[gname].out)
+    plans.sort(key=lambda p: json.dumps(p, sort_keys=True))       # TLC's output order depends on its worker threads
     if len(plans) < 2000:
         raise MachineryError("plan generation produced only %d plans\n%s" % (len(plans), res[gens[0]].out[-1500:]))
     for p in plans:
